@@ -246,7 +246,7 @@ structure NextGood (r : Reader) (out : Reader × NextResult) : Prop where
     (∃ i, IsElem out.1 i c ∧ out.1.nextChunk = i + 1)
   eof : out.2 = .eof →
     ReaderInv out.1 ∧ out.1.err = none ∧ SameFile r out.1 ∧ r.dsize ≤ out.1.seekPos ∧
-    out.1.seekPos = r.seekPos
+    out.1.seekPos = r.seekPos ∧ out.1.needResolve = true
   err : ∀ e, out.2 = .err e → out.1.err = some e
 
 /-- the value of `NextChunk` when it has to resolve the seek position -/
@@ -267,7 +267,7 @@ theorem nextLoop_resolving (k : Nat) (r : Reader) (inv : ReaderInv r) (he : r.er
   by_cases hge : r.seekPos ≥ r.dsize
   · simp only [hge, ↓reduceIte]
     exact ⟨⟨(by intro h; cases h), (by intro h; cases h), (by intro c h; cases h),
-      fun _ => ⟨inv, he, ⟨rfl, rfl, rfl, rfl, rfl⟩, hge, rfl⟩, (by intro e h; cases h)⟩,
+      fun _ => ⟨inv, he, ⟨rfl, rfl, rfl, rfl, rfl⟩, hge, rfl, hn⟩, (by intro e h; cases h)⟩,
       (by first | rfl | trivial), (by intro c h; cases h)⟩
   · simp only [hge, ↓reduceIte]
     have hsame : Reader.resolve { r with needResolve := false } = r.resolve := rfl
@@ -371,11 +371,11 @@ theorem nextLoop_walking (k : Nat) (r : Reader) (inv : ReaderInv r) (he : r.err 
         refine ⟨a1, a2, ⟨by rw [b1, s1], by rw [b2, s2], by rw [b3, s3], by rw [b4, s4], by rw [b5, s5]⟩,
           a4, by rw [← s2, ← s3]; exact a5, by rw [← hsp']; exact a6, by rw [← hsp']; exact a7, a8, a9⟩
       · intro hc
-        obtain ⟨a1, a2, a3, a4, a5⟩ := g4 hc
+        obtain ⟨a1, a2, a3, a4, a5, a6⟩ := g4 hc
         obtain ⟨b1, b2, b3, b4, b5⟩ := a3
         simp only at b1 b2 b3 b4 b5 a4 a5
         refine ⟨a1, a2, ⟨by rw [b1, s1], by rw [b2, s2], by rw [b3, s3], by rw [b4, s4], by rw [b5, s5]⟩,
-          by rw [← s3]; exact a4, by rw [a5, hsp']⟩
+          by rw [← s3]; exact a4, by rw [a5, hsp'], a6⟩
   · intro c r' hsc
     rw [hsc] at hscan
     exact hscan.2.2.1
